@@ -48,7 +48,7 @@ def gen(rng, tier):
         ops = (set(common.PAST_OPS) | {'eventually_b', 'always_b', 'until_b', 'unless_b', 'next'}) - {'log'} if future else set(common.PAST_OPS)   # log: F08
     precise = rng.random() < 0.15
     for _ in range(100):
-        cfg = sg.GenCfg(vars=vars_, ops=ops, max_depth=rng.randint(3, 5), max_bound=rng.choice([2, 4]), p_reuse=rng.choice([0.1, 0.4]))
+        cfg = sg.GenCfg(vars=vars_, ops=ops, max_depth=rng.randint(3, 5), max_bound=rng.choice([2, 4]), p_reuse=rng.choice([0.1, 0.4]), p_near=rng.choice([0.0, 0.0, 0.5]))
         if precise:
             cfg.lattice = sg.LATTICE + [1.2345678, 0.1234567891, 3.14159265, 1234567.25, 2.0000001]
         ast = sg.gen_formula(rng, cfg)
